@@ -61,6 +61,27 @@ def find_item(src, kind, name):
     return s, e, attrs
 
 
+def project_struct(text, it):
+    """R5: keep only the listed fields of a struct; replace the header by the declared one"""
+    m = rustlex.mask(text)
+    ob = m.index('{')
+    cb = rustlex.match_brace(m, ob)
+    body = text[ob + 1:cb]
+    keep = it['project_fields']
+    kept, dropped = [], []
+    for ln in body.split('\n'):
+        mm = re.match(r'\s*(pub(\([^)]*\))?\s+)?(\w+)\s*:', ln)
+        if not mm:
+            if ln.strip():
+                raise Unsupported(f'struct {it["name"]}: cannot parse field line {ln!r}')
+            continue
+        (kept if mm.group(3) in keep else dropped).append(ln if mm.group(3) in keep else mm.group(3))
+    missing = [k for k in keep if not any(re.match(r'\s*(pub(\([^)]*\))?\s+)?' + k + r'\s*:', x) for x in kept)]
+    if missing:
+        raise AnchorLost(f'struct {it["name"]}: fields not found: {missing}')
+    return it['project_header'] + ' {\n' + '\n'.join(kept) + '\n}', dropped
+
+
 def strip_docs(text):
     """drop doc comments and plain comments inside an item (logged as dropped)"""
     out = []
@@ -239,7 +260,11 @@ def weave_fn(text, spec, unit_name):
             raise AnchorLost(f'{spec["name"]}: ghost anchor line not found: {want!r}')
         i = hits[occ]
         indent = re.match(r'\s*', lines[i]).group(0)
-        w.insert(offs[i], ''.join(indent + x + '\n' for x in g['text'].strip('\n').split('\n')), 'proof block')
+        if g.get('after'):
+            # insert after the anchored line (i.e. at the start of the next line)
+            w.insert(offs[i] + len(lines[i]) + 1, ''.join(indent + x + '\n' for x in g['text'].strip('\n').split('\n')), 'proof block')
+        else:
+            w.insert(offs[i], ''.join(indent + x + '\n' for x in g['text'].strip('\n').split('\n')), 'proof block')
     # R4 outlining
     for ol in spec.get('outline', []):
         cnt = text.count(ol['expr'])
@@ -261,7 +286,7 @@ def weave_fn(text, spec, unit_name):
 def build_unit(unit_path, out_path):
     with open(unit_path, 'rb') as f:
         u = tomllib.load(f)
-    parts = ['// GENERATED on every run by vlib/verus.py from /repo — do not edit', 'use vstd::prelude::*;', 'verus! {', '']
+    parts = ['// GENERATED on every run by vlib/verus.py from /repo — do not edit', 'use vstd::prelude::*;'] + list(u.get('header', [])) + ['verus! {', '']
     info = {'unit': u['name'], 'items': [], 'functions': [], 'rewrites': [], 'faithful': True, 'line_map': []}
     prelude = open(os.path.join(VERIF, u['prelude'])).read()
     parts.append('// ---- prelude (specification vocabulary, trait interface, helper declarations) ----')
@@ -270,13 +295,19 @@ def build_unit(unit_path, out_path):
         src = rd(os.path.join(REPO, it['file'])).replace('\r\n', '\n')
         s, e, attrs = find_item(src, it['kind'], it['name'])
         text = strip_docs(src[s:e])
-        keep_attrs = [a.strip() for a in attrs if a.strip().startswith('#[derive')]
+        keep_attrs = [] if it.get('drop_attrs') else [a.strip() for a in attrs if a.strip().startswith('#[derive')]
+        if it.get('project_fields'):
+            text, dropped = project_struct(text, it)
+            info['rewrites'].append({'fn': it['name'], 'op': 'R5 struct projection', 'why': 'fields not touched by any function of the unit are dropped (checked mechanically below); generic parameters of dropped fields removed', 'dropped_fields': dropped, 'after': text})
+            info.setdefault('dropped_fields', []).extend(dropped)
         parts.append(f'// ---- verbatim: {it["kind"]} {it["name"]} from {it["file"]} ----')
         parts.extend(keep_attrs)
         parts.append(text)
         info['items'].append({'file': it['file'], 'kind': it['kind'], 'name': it['name'], 'sha256': hashlib.sha256(src[s:e].encode()).hexdigest(), 'dropped': 'doc comments'})
     for group in u.get('impl', []):
         parts.append(group['header'] + ' {')
+        if group.get('prelude'):
+            parts.append(open(os.path.join(VERIF, group['prelude'])).read())
         for fs in group['fn']:
             _emit_fn(fs, parts, info, u, indent='')
         parts.append('}')
@@ -312,6 +343,9 @@ def _emit_fn(fs, parts, info, u, indent=''):
     woven, faithful, log = weave_fn(strip_docs(orig) if False else orig, fs, u['name'])
     if not faithful:
         info['faithful'] = False
+    for df in info.get('dropped_fields', []):
+        if re.search(r'self\s*\.\s*' + re.escape(df) + r'\b', rustlex.mask(orig)):
+            raise Unsupported(f'{fs["name"]} mentions self.{df}, a field dropped by the struct projection of this unit')
     parts.append(f'// ---- fn {fs["name"]} from {fs["file"]} ({"ASSUMED contract, body not verified" if fs.get("external_body") else "verbatim body + woven contract"}) ----')
     parts.append(woven)
     info['functions'].append({'name': fs['name'], 'file': fs['file'], 'item_sha256': hashlib.sha256(orig.encode()).hexdigest(), 'engine': 'V (Verus)',
